@@ -190,7 +190,7 @@ func TestC14ScriptList(t *testing.T) {
 		}
 	}
 	rapid.Check(t, func(t *rapid.T) {
-		nScripts := rapid.SampledFrom([]int{1, 1, 2, 3, 5, 8, 20}).Draw(t, "nScripts")
+		nScripts := rapid.SampledFrom([]int{1, 1, 2, 3, 5, 8, 20, 60}).Draw(t, "nScripts")
 		var ls []refname.LangSys
 		seenS := map[string]bool{}
 		hasSpace, hasDFLT, multiLang := false, false, false
@@ -214,7 +214,12 @@ func TestC14ScriptList(t *testing.T) {
 			seenS[s] = true
 			hasSpace = hasSpace || strings.HasSuffix(s, " ")
 			hasDFLT = hasDFLT || s == "DFLT"
-			nLang := rapid.SampledFrom([]int{0, 0, 1, 2, 4, 12}).Draw(t, "nLang")
+			// (a script list is limited by 16-bit offsets: at most about 2000
+			// language systems of this size in total)
+			nLang := rapid.SampledFrom([]int{0, 0, 1, 2, 4, 12, 40, 150}).Draw(t, "nLang")
+			if len(ls)+nLang > 2000 {
+				nLang = 2
+			}
 			def := nLang == 0 || rapid.Bool().Draw(t, "default")
 			seenL := map[string]bool{}
 			mk := func(lang string) {
@@ -260,6 +265,12 @@ func TestC14ScriptList(t *testing.T) {
 		}
 		if len(seenS) >= 2 {
 			labels = append(labels, "multi-script")
+		}
+		switch {
+		case len(ls) >= 500:
+			labels = append(labels, "language-systems>=500")
+		case len(ls) >= 70:
+			labels = append(labels, "language-systems-70..499")
 		}
 		keys := sortedKeys(ls)
 		stats.CaseIn("scriptlist", stats.Hash(strings.Join(keys, ";"), int(tp)), len(ls) >= 2, func() string {
